@@ -285,7 +285,19 @@ def main(tier, seed):
             summ = "program p%d stage=%s: " % (i, r["stage"]) + ("event %d expected `%s` observed `%s`" % d if d else str(r.get("reports") or r.get("detail"))[:400])
             chk.violation("p%d" % i, summ, api.witness(r))
     stats.update(js_leg(chk, tier, seed))
-    chk.evaluations = stats["calls"] + stats["size_probes"] + stats["declaration_pairs_compared"] + stats["js_option_fields_written"] + stats["js_option_params"]
+    # the same question on a real wasm32 module: which arm does Rust receive / JS read back, inside whole call histories through the generated JS.
+    # Only arm disagreements and faults in the receive path belong here; other value mismatches are C08's.
+    def arms(s):
+        return re.sub(r"[^SNOE(]", "", re.sub(r"\b[0-9a-f]+\b|\"[0-9a-f]*\"", "", s.split(" ", 2)[-1] if s.count(" ") >= 2 else ""))
+
+    def only(r):
+        d = r.get("diff")
+        if d and isinstance(d[1], str) and isinstance(d[2], str) and d[1].split(" ")[:2] == d[2].split(" ")[:2] and arms(d[1]) != arms(d[2]):
+            return True
+        return any(("GUARD" in x or "RangeError" in x or "THREW" in x) for x in (r.get("reports") or [])) or bool(d and "THREW" in str(d[2]))
+    e2e = api.js_e2e_leg(chk, seed + 10800, 400 if thorough else 48, "c10e2e", profile=dict(max_params=3), only=only, label="js-e2e")
+    stats.update({"js_e2e_" + k: v for k, v in e2e.items()})
+    chk.evaluations = stats["calls"] + stats["size_probes"] + stats["declaration_pairs_compared"] + stats["js_option_fields_written"] + stats["js_option_params"] + stats["js_e2e_calls"]
     chk.distinct = kinds
     chk.rule = ("per program: 10-16 Option pairs over {13 primitives, enum, struct, struct with DiplomatOption fields} in parameter and return position and "
                 "8-12 Result/DiplomatResult pairs over arms {unit, u8, u64, f32, bool, enum, struct, Box<opaque>}; both members of a pair are called 3 times "
